@@ -5,6 +5,8 @@
 #include <yaclib/async/join.hpp>
 #include <yaclib/async/when_any.hpp>
 // the two headers above are the whole include list a user of WhenAny / Join needs
+#include <yaclib/async/contract.hpp>
+#include <yaclib/async/make.hpp>
 #include <yaclib/async/run.hpp>
 #include <yaclib/async/when/when.hpp>
 #include <yaclib/exe/manual.hpp>
@@ -83,13 +85,14 @@ void WhenAnyVariantF() {
   auto d = yaclib::WhenAny<F>(Src<Future<int, E>>(), Src<SharedFuture<int, E>>());  // same value, mixed handles
   static_assert(std::is_same_v<decltype(d), Future<int, E>>);
   Sink(a, b, c, d);
-#ifdef API_PROBE_KNOWN_4
-  // KNOWN_4 (a): a heterogeneous WhenAny with a void input builds std::variant<void, ...> (when_any.hpp does not wrap void in Unit the
-  // way when_all.hpp's ContainerElem / wrap_void_t does): "variant must have no void alternative" (static_assert of libstdc++).
-  // notes/api_probe.md #4.
-  auto k4 = yaclib::WhenAny<F>(Src<Future<void, E>>(), Src<Future<int, E>>());
-  Sink(k4);
-#endif
+  // a void input is the alternative Unit, as in WhenAll's tuple (std::variant<void, ...> before /repo 3ec8b78), #4
+  auto e = yaclib::WhenAny<F>(Src<Future<void, E>>(), Src<Future<int, E>>());
+  static_assert(std::is_same_v<decltype(e), Future<std::variant<yaclib::Unit, int>, E>>);
+  auto f = yaclib::WhenAny<F>(Src<Future<int, E>>(), Src<SharedFuture<void, E>>(), Src<FutureOn<void, E>>(), Src<Future<Pinned, E>>());
+  static_assert(std::is_same_v<decltype(f), Future<std::variant<int, yaclib::Unit, Pinned>, E>>);
+  auto g = yaclib::WhenAny<F>(Src<Future<void, E>>(), Src<FutureOn<void, E>>());  // all void: no variant
+  static_assert(std::is_same_v<decltype(g), Future<void, E>>);
+  Sink(e, f, g);
 }
 
 // ---- Join ----------------------------------------------------------------------------------------------------------------
@@ -297,6 +300,28 @@ int api_probe_when2(int argc) {
   fs.push_back(run(8));
   auto join = yaclib::Join(fs.begin(), fs.end());
   auto first_fail = yaclib::Join<yaclib::FailPolicy::FirstFail>(run(1), yaclib::MakeFuture<int>(yaclib::StopTag{}));
+  // WhenAny over void and non-void inputs (#4, /repo 3ec8b78): alternative 0 is Unit (the void input), alternative 1 the int
+  auto [void_first_f, void_first_p] = yaclib::MakeContract<void>();
+  auto [int_later_f, int_later_p] = yaclib::MakeContract<int>();
+  auto void_wins = yaclib::WhenAny(std::move(void_first_f), std::move(int_later_f));
+  auto [void_later_f, void_later_p] = yaclib::MakeContract<void>();
+  auto [int_first_f, int_first_p] = yaclib::MakeContract<int>();
+  auto int_wins = yaclib::WhenAny(std::move(void_later_f), std::move(int_first_f));
+  std::move(void_first_p).Set();
+  std::move(int_later_p).Set(1);
+  std::move(int_first_p).Set(9);
+  std::move(void_later_p).Set();
+  {
+    const std::variant<yaclib::Unit, int> a = std::move(void_wins).Get().Ok();
+    const std::variant<yaclib::Unit, int> b = std::move(int_wins).Get().Ok();
+    if (a.index() != 0 || b.index() != 1 || std::get<1>(b) != 9) {
+      return 2;
+    }
+    auto failed = yaclib::WhenAny(yaclib::MakeFuture<void>(yaclib::StopTag{}), yaclib::MakeFuture<int>(yaclib::StopTag{}));
+    if (std::move(failed).Get().State() != yaclib::ResultState::Error) {
+      return 3;
+    }
+  }
   while (manual.Drain() != 0) {
   }
   int sum = 0;
